@@ -139,7 +139,9 @@ def match_known(f: dict, known: list[dict]) -> dict | None:
     """An entry matches on the specific thing that fails: invariant, exception type, call-site names, tags."""
     for e in known:
         m = e["match"]
-        if m.get("inv") != f["inv"]:
+        if "inv" in m and m["inv"] != f["inv"]:
+            continue
+        if "inv_in" in m and f["inv"] not in m["inv_in"]:
             continue
         if "exc" in m and m["exc"] != f["exc"]:
             continue
